@@ -104,7 +104,7 @@ def scopes : List (Option Scope) :=
   [none, some .vm, some (.rel .auth), some (.rel .asrt), some (.rel .keyAgr), some (.rel .capDel), some (.rel .capInv)]
 
 def idUniverse (nd np nf : Nat) : List Id :=
-  (List.range nd ++ [50]).flatMap fun d => (List.range np).flatMap fun p => (List.range nf).map fun f => ⟨d, p, some (f + 1)⟩
+  (List.range nd ++ [50, 10]).flatMap fun d => (List.range np).flatMap fun p => (List.range nf).map fun f => ⟨d, p, some (f + 1)⟩
 
 def showOM : Option Method → String
   | none => ""
@@ -131,6 +131,15 @@ def runOps (d : Doc) : List String → List String
         | some nd, some np, some nf => battery d nd np nf :: runOps d ts
         | _, _, _ => ["bad-op"]
       | _ => ["bad-op"]
+    else if t.startsWith "rM:" then
+      -- `remove_method`: the same removal as `remove_method_and_scope`, the scope is not reported
+      match C04.parseId (t.drop 3).toString with
+      | some k =>
+        let r := removeMethod d k
+        (match r.2 with
+         | .removedMethod (some (m, _)) => showMethod m
+         | _ => "none") :: runOps r.1 ts
+      | none => ["bad-op"]
     else match parseOp t with
       | some op => let r := step d op; showRes r.2 :: runOps r.1 ts
       | none => ["bad-op"]
